@@ -4,7 +4,7 @@
 From Coq Require Import ZArith List Bool Floats Permutation.
 Require Import Csvq.Model.Base Csvq.Model.Value Csvq.Model.Expr Csvq.Model.Key Csvq.Model.SortVal
                Csvq.Model.Query Csvq.Model.Analytic.
-Require Import Csvq.Proofs.Analytic.
+Require Import Csvq.Proofs.Analytic Csvq.Proofs.Rank.
 Import ListNotations.
 Open Scope Z_scope.
 
@@ -88,4 +88,30 @@ Proof. vm_compute. reflexivity. Qed.
 Example C17_last_value_symmetric_frame :
   analyze_partition false (ALastValue (ECol 0) false) (mkAC [] [] (Some (FPreceding 1, Some (FFollowing 1)))) true
     [([VInt 10], None); ([VInt 20], None); ([VInt 30], None)] = Ok [VInt 20; VInt 30; VInt 30].
+Proof. vm_compute. reflexivity. Qed.
+
+(* RANK and DENSE_RANK in closed form over the peer groups of the partition (the maximal runs of members
+   whose sort values are equivalent to those of the run's first member; run_sizes are their sizes, from
+   which the model also computes CUME_DIST and PERCENT_RANK): every member of a group gets
+   1 + the number of rows before the group (RANK) / the number of the group (DENSE_RANK); the groups
+   have positive sizes that add up to the partition *)
+Theorem C17_rank_is_one_plus_rows_before_the_peer_group : forall strict ac ho (p : list pmember),
+  analyze_partition strict ARank ac ho p = Ok (map VInt (expand_rank (run_sizes p None []) 0)).
+Proof. intros. cbn [analyze_partition]. rewrite rank_closed_form. reflexivity. Qed.
+Print Assumptions C17_rank_is_one_plus_rows_before_the_peer_group.
+
+Theorem C17_dense_rank_is_the_number_of_the_peer_group : forall strict ac ho (p : list pmember),
+  analyze_partition strict ADenseRank ac ho p = Ok (map VInt (expand_dense (run_sizes p None []) 0)).
+Proof. intros. cbn [analyze_partition]. rewrite dense_rank_closed_form. reflexivity. Qed.
+Print Assumptions C17_dense_rank_is_the_number_of_the_peer_group.
+
+Theorem C17_peer_groups_cover_the_partition : forall p : list pmember,
+  Forall (fun a => 0 < a) (run_sizes p None []) /\ zsum (run_sizes p None []) = Z.of_nat (length p).
+Proof. exact peer_groups_cover. Qed.
+
+Example C17_rank_example :
+  let sv k := Some [new_sort_value false (VInt k)] in
+  analyze_partition false ARank (mkAC [] [] None) true
+    [([VInt 1], sv 1); ([VInt 1], sv 1); ([VInt 2], sv 2); ([VInt 3], sv 3); ([VInt 3], sv 3)]
+  = Ok [VInt 1; VInt 1; VInt 3; VInt 4; VInt 4].
 Proof. vm_compute. reflexivity. Qed.
